@@ -173,12 +173,25 @@ def _guarded_by_none_test(f: FuncInfo, node, slot: str) -> bool:
     # conditions under which the store executes (enclosing ifs and earlier guard clauses such as
     # `if self._x is not None: return self._x`): one of them must say "the slot is still None"
     stmt = node
+    # locals holding the slot's value when the test is made: `x = self._slot` (bound once) or `(x := self._slot)`
+    aliases = {f"self.{slot}"}
+    counts = {}
+    for n in ast.walk(f.node):
+        if isinstance(n, ast.Name) and isinstance(n.ctx, ast.Store):
+            counts[n.id] = counts.get(n.id, 0) + 1
+    for n in ast.walk(f.node):
+        if isinstance(n, ast.NamedExpr) and norm(n.value) == f"self.{slot}":
+            aliases.add(n.target.id)
+            aliases.add(norm(n))
+        if isinstance(n, ast.Assign) and len(n.targets) == 1 and isinstance(n.targets[0], ast.Name) and norm(n.value) == f"self.{slot}":
+            # later re-bindings of the alias happen inside the guarded arm (the freshly constructed value)
+            aliases.add(n.targets[0].id)
     for e, truth in execution_condition(f.node, stmt, stop_at=(ast.FunctionDef,)):
         for lit in (e.values if isinstance(e, ast.BoolOp) and ((isinstance(e.op, ast.And) and truth) or (isinstance(e.op, ast.Or) and not truth)) else [e]):
             neg = False
             while isinstance(lit, ast.UnaryOp) and isinstance(lit.op, ast.Not):
                 lit, neg = lit.operand, not neg
-            if isinstance(lit, ast.Compare) and len(lit.ops) == 1 and norm(lit.left) == f"self.{slot}" and norm(lit.comparators[0]) == "None":
+            if isinstance(lit, ast.Compare) and len(lit.ops) == 1 and norm(lit.left) in aliases and norm(lit.comparators[0]) == "None":
                 is_none = isinstance(lit.ops[0], (ast.Is, ast.Eq))
                 if (is_none != neg) == truth:
                     return True
